@@ -312,7 +312,14 @@ fn mk_sigs(w: &World) -> Sigs {
     }
 }
 
-fn emit_worlds<F: Fn(&LAssets) -> bool>(
+/// What the satisfier produced in one world: the items fed to the (inner) script in push order
+/// and that script's bytes; `None` items = a key spend (no script runs).
+pub struct Wit {
+    items: Option<Vec<Vec<u8>>>,
+    script: Vec<u8>,
+}
+
+fn emit_worlds<F: Fn(&LAssets) -> Option<Wit>>(
     w: &World,
     sg: &Sigs,
     a: &Atoms,
@@ -334,6 +341,10 @@ fn emit_worlds<F: Fn(&LAssets) -> bool>(
         wi.exhaustive as u8
     )
     .unwrap();
+    // witnesses kept for execution by the specification's instrumented Script semantics:
+    // the largest one (the most expensive branch some world forces) and the first three
+    let mut kept: Vec<(String, Wit)> = Vec::new();
+    let mut largest: Option<(usize, String, Wit)> = None;
     for (km, pm, l, s) in wi.list {
         let assets = LAssets {
             w,
@@ -346,21 +357,104 @@ fn emit_worlds<F: Fn(&LAssets) -> bool>(
             internal_idx: internal,
         };
         let r = catch_unwind(AssertUnwindSafe(|| sat(&assets)));
-        let v = match r {
-            Ok(true) => "1",
-            Ok(false) => "0",
-            Err(_) => "P",
-        };
-        writeln!(
-            out,
-            "W {} {} {} {} {}",
+        let world = format!(
+            "{} {} {} {}",
             km,
             pm,
             l.map(|x| x.to_string()).unwrap_or("-".into()),
-            s.map(|x| x.to_string()).unwrap_or("-".into()),
-            v
-        )
-        .unwrap();
+            s.map(|x| x.to_string()).unwrap_or("-".into())
+        );
+        match r {
+            Ok(Some(wit)) => {
+                // number of elements the script starts with, and their total pushed size
+                let (n, bytes) = match &wit.items {
+                    Some(it) => (it.len() as i64, it.iter().map(|x| x.len() + 1).sum::<usize>()),
+                    None => (-1, 0),
+                };
+                writeln!(out, "W {} 1 {} {}", world, n, bytes).unwrap();
+                if wit.items.is_some() {
+                    let nn = n as usize;
+                    if largest.as_ref().map(|x| nn > x.0).unwrap_or(true) {
+                        largest = Some((nn, world.clone(), Wit { items: wit.items.clone(), script: wit.script.clone() }));
+                    }
+                    if kept.len() < 3 {
+                        kept.push((world, wit));
+                    }
+                }
+            }
+            Ok(None) => writeln!(out, "W {} 0 0 0", world).unwrap(),
+            Err(_) => writeln!(out, "W {} P 0 0", world).unwrap(),
+        }
+    }
+    if let Some((_, world, wit)) = largest {
+        if !kept.iter().any(|k| k.0 == world) {
+            kept.push((world, wit));
+        }
+    }
+    for (world, wit) in kept {
+        let items = wit.items.unwrap_or_default();
+        let mut l = format!("X {} {} {}", world, hex(&wit.script), items.len());
+        for it in items.iter() {
+            l.push(' ');
+            l.push_str(&hex(it));
+        }
+        writeln!(out, "{}", l).unwrap();
+    }
+}
+
+/// the pushes of a scriptSig, in push order
+fn scriptsig_items(ssig: &bitcoin::ScriptBuf) -> Option<Vec<Vec<u8>>> {
+    use bitcoin::blockdata::script::Instruction;
+    let mut v = Vec::new();
+    for ins in ssig.instructions() {
+        match ins.ok()? {
+            Instruction::PushBytes(b) => v.push(b.as_bytes().to_vec()),
+            Instruction::Op(op) => {
+                let c = op.to_u8();
+                if (0x51..=0x60).contains(&c) {
+                    v.push(vec![c - 0x50])
+                } else if c == 0x4f {
+                    v.push(vec![0x81])
+                } else {
+                    return None;
+                }
+            }
+        }
+    }
+    Some(v)
+}
+
+/// split what a descriptor's satisfier returned into (items for the inner script, inner script)
+fn desc_wit(kind: &str, inner: &[Vec<u8>], wit: Vec<Vec<u8>>, ssig: bitcoin::ScriptBuf) -> Wit {
+    match kind {
+        "wsh" | "shwsh" => {
+            let mut w = wit;
+            let script = w.pop().unwrap_or_default();
+            Wit { items: Some(w), script }
+        }
+        "tr" => {
+            if wit.len() >= 2 {
+                let mut w = wit;
+                w.pop();
+                let script = w.pop().unwrap_or_default();
+                Wit { items: Some(w), script }
+            } else {
+                Wit { items: None, script: Vec::new() }
+            }
+        }
+        "sh" => match scriptsig_items(&ssig) {
+            Some(mut v) => {
+                let script = v.pop().unwrap_or_default();
+                Wit { items: Some(v), script }
+            }
+            None => Wit { items: None, script: Vec::new() },
+        },
+        "bare" => match scriptsig_items(&ssig) {
+            Some(v) => Wit { items: Some(v), script: inner.first().cloned().unwrap_or_default() },
+            None => Wit { items: None, script: Vec::new() },
+        },
+        // pkh / wpkh / sh(wpkh): a key spend
+        _ => Wit { items: None, script: Vec::new() },
     }
 }
 
@@ -496,7 +590,10 @@ fn emit_ms_case<Ctx: ScriptContext>(
     if ok {
         let mut a = Atoms::default();
         collect_atoms(w, m, &mut a);
-        emit_worlds(w, sg, &a, None, rng, cap, out, |assets| m.satisfy_malleable(assets).is_ok());
+        let script = m.encode().into_bytes();
+        emit_worlds(w, sg, &a, None, rng, cap, out, |assets| {
+            m.satisfy_malleable(assets).ok().map(|items| Wit { items: Some(items), script: script.clone() })
+        });
     }
     writeln!(out, "END").unwrap();
 }
@@ -527,13 +624,20 @@ fn tap_tree(mut leaves: Vec<Ms<Tap>>, shape: u64) -> Option<TapTree<Key>> {
     }
 }
 
+/// per miniscript of a descriptor: dump, within_resource_limits, (encoded length, script_size()), script bytes
+type LeafRec = (String, bool, (usize, usize), Vec<u8>);
+fn leaf_rec<Ctx: ScriptContext>(w: &World, m: &Ms<Ctx>) -> LeafRec {
+    let sc = m.encode().into_bytes();
+    (dump_str(w, &m.node), m.within_resource_limits(), (sc.len(), m.script_size()), sc)
+}
+
 fn emit_desc_case(
     w: &World,
     sg: &Sigs,
     id: u64,
     kind: &str,
     desc: &Descriptor<Key>,
-    leaves: &[(String, bool, (usize, usize))],
+    leaves: &[LeafRec],
     keyonly: Option<usize>,
     internal: Option<usize>,
     atoms: &Atoms,
@@ -543,7 +647,9 @@ fn emit_desc_case(
 ) {
     writeln!(out, "CASE {} {} ctx={}", id, kind, ctx_name(kind)).unwrap();
     writeln!(out, "DESC {}", desc).unwrap();
-    for (d, rl, sl) in leaves {
+    let inner: Vec<Vec<u8>> = leaves.iter().map(|l| l.3.clone()).collect();
+    let inner_scripts = &inner[..];
+    for (d, rl, sl, _) in leaves {
         writeln!(out, "MS {}", d).unwrap();
         writeln!(out, "RL {}", *rl as u8).unwrap();
         writeln!(out, "SCRIPTLEN {} {}", sl.0, sl.1).unwrap();
@@ -557,7 +663,9 @@ fn emit_desc_case(
     let (line, ok) = lift_line(w, catch_unwind(AssertUnwindSafe(|| desc.lift())));
     writeln!(out, "{}", line).unwrap();
     if ok {
-        emit_worlds(w, sg, atoms, internal, rng, cap, out, |assets| desc.get_satisfaction_mall(assets).is_ok());
+        emit_worlds(w, sg, atoms, internal, rng, cap, out, |assets| {
+            desc.get_satisfaction_mall(assets).ok().map(|(wit, ssig)| desc_wit(kind, inner_scripts, wit, ssig))
+        });
     }
     writeln!(out, "END").unwrap();
 }
@@ -600,6 +708,7 @@ pub fn run(args: &[String]) {
         )
         .unwrap();
     }
+    writeln!(hdr, "DUMMY {} {}", hex(&sg.ecdsa.to_vec()), hex(&sg.schnorr.to_vec())).unwrap();
     print!("{}", hdr);
     // committed corpus of minimized failures (earlier mutation witnesses, known findings): run first
     if part == 0 {
@@ -614,6 +723,16 @@ pub fn run(args: &[String]) {
                 Err(_) => println!("PANIC harness corpus case={} kind={}", id, kind),
             }
         }
+    }
+    // directed resource-limit family (ids 2000001..): one branch over a context limit next to a
+    // cheap branch, and controls just under the limit; part 0 of every run
+    if part == 0 {
+        let mut out = String::new();
+        let r = catch_unwind(AssertUnwindSafe(|| directed_limits(&w, &sg, seed, cap, &mut out)));
+        if r.is_err() {
+            println!("PANIC harness directed-limits");
+        }
+        print!("{}", out);
     }
     for c in 0..n {
         if c % nparts != part {
@@ -664,7 +783,7 @@ fn one_case(w: &World, sg: &Sigs, c: u64, cseed: u64, depth: u32, id: u64, rng: 
             if let Some(m) = gen_ms::<Segwitv0>(w, cseed, seg, depth, 0) {
                 let mut a = Atoms::default();
                 collect_atoms(w, &m, &mut a);
-                let lv = vec![(dump_str(w, &m.node), m.within_resource_limits(), (m.encode().len(), m.script_size()))];
+                let lv = vec![leaf_rec(w, &m)];
                 let (d, kind) = if c % 12 == 4 {
                     (Descriptor::new_wsh(m), "wsh")
                 } else {
@@ -679,7 +798,7 @@ fn one_case(w: &World, sg: &Sigs, c: u64, cseed: u64, depth: u32, id: u64, rng: 
             if let Some(m) = gen_ms::<Legacy>(w, cseed, leg, depth, 0) {
                 let mut a = Atoms::default();
                 collect_atoms(w, &m, &mut a);
-                let lv = vec![(dump_str(w, &m.node), m.within_resource_limits(), (m.encode().len(), m.script_size()))];
+                let lv = vec![leaf_rec(w, &m)];
                 if let Ok(d) = Descriptor::new_sh(m) {
                     emit_desc_case(w, sg, id, "sh", &d, &lv, None, None, &a, rng, cap, out)
                 }
@@ -703,7 +822,7 @@ fn one_case(w: &World, sg: &Sigs, c: u64, cseed: u64, depth: u32, id: u64, rng: 
             if let Some(m) = m {
                 let mut a = Atoms::default();
                 collect_atoms(w, &m, &mut a);
-                let lv = vec![(dump_str(w, &m.node), m.within_resource_limits(), (m.encode().len(), m.script_size()))];
+                let lv = vec![leaf_rec(w, &m)];
                 if let Ok(d) = Descriptor::new_bare(m) {
                     emit_desc_case(w, sg, id, "bare", &d, &lv, None, None, &a, rng, cap, out)
                 }
@@ -720,7 +839,7 @@ fn one_case(w: &World, sg: &Sigs, c: u64, cseed: u64, depth: u32, id: u64, rng: 
                 let d = if nleaves >= 3 { depth.min(1) } else { depth.min(2) };
                 if let Some(m) = gen_ms::<Tap>(w, cseed.wrapping_mul(31).wrapping_add(l), tap, d, 0) {
                     collect_atoms(w, &m, &mut a);
-                    lv.push((dump_str(w, &m.node), m.within_resource_limits(), (m.encode().len(), m.script_size())));
+                    lv.push(leaf_rec(w, &m));
                     leaves.push(m);
                 }
             }
@@ -790,7 +909,7 @@ fn corpus_case(w: &World, sg: &Sigs, id: u64, kind: &str, leaves: &[&str], rng: 
             };
             let mut a = Atoms::default();
             collect_atoms(w, &m, &mut a);
-            let lv = vec![(dump_str(w, &m.node), m.within_resource_limits(), (m.encode().len(), m.script_size()))];
+            let lv = vec![leaf_rec(w, &m)];
             match $mk(m) {
                 Ok(d) => emit_desc_case(w, sg, id, kind, &d, &lv, None, None, &a, rng, cap, out),
                 Err(_) => return false,
@@ -832,7 +951,7 @@ fn corpus_case(w: &World, sg: &Sigs, id: u64, kind: &str, leaves: &[&str], rng: 
             };
             let mut a = Atoms::default();
             collect_atoms(w, &m, &mut a);
-            let lv = vec![(dump_str(w, &m.node), m.within_resource_limits(), (m.encode().len(), m.script_size()))];
+            let lv = vec![leaf_rec(w, &m)];
             emit_desc_case(w, sg, id, kind, &d, &lv, None, None, &a, rng, cap, out)
         }
         "bare" => desc1!(BareCtx, Descriptor::new_bare),
@@ -844,7 +963,7 @@ fn corpus_case(w: &World, sg: &Sigs, id: u64, kind: &str, leaves: &[&str], rng: 
                 match p::<Tap>(w, l, true) {
                     Some(m) => {
                         collect_atoms(w, &m, &mut a);
-                        lv.push((dump_str(w, &m.node), m.within_resource_limits(), (m.encode().len(), m.script_size())));
+                        lv.push(leaf_rec(w, &m));
                         ms.push(m)
                     }
                     None => return false,
@@ -859,4 +978,200 @@ fn corpus_case(w: &World, sg: &Sigs, id: u64, kind: &str, leaves: &[&str], rng: 
         _ => return false,
     }
     true
+}
+
+// ------------------------------------------------------------------ directed resource-limit cases
+fn fa<Ctx: ScriptContext>(t: Terminal<Key, Ctx>) -> Option<Ms<Ctx>> { Miniscript::from_ast(t).ok() }
+
+fn cyc(w: &World, idx: &[usize], n: usize, tap: bool) -> Vec<Key> { (0..n).map(|i| w.key(idx[i % idx.len()], tap)).collect() }
+
+/// balanced conjunction and_v(v:L, R) of B fragments
+fn and_tree<Ctx: ScriptContext>(mut xs: Vec<Ms<Ctx>>) -> Option<Ms<Ctx>> {
+    if xs.len() == 1 {
+        return xs.pop();
+    }
+    let right = xs.split_off(xs.len() / 2);
+    let l = and_tree(xs)?;
+    let r = and_tree(right)?;
+    let v = fa(Terminal::Verify(arc(l)))?;
+    fa(Terminal::AndV(arc(v), arc(r)))
+}
+
+fn pk<Ctx: ScriptContext>(w: &World, i: usize, tap: bool) -> Option<Ms<Ctx>> {
+    let k = fa(Terminal::PkK(w.key(i, tap)))?;
+    fa(Terminal::Check(arc(k)))
+}
+fn pkh<Ctx: ScriptContext>(w: &World, i: usize, tap: bool) -> Option<Ms<Ctx>> {
+    let k = fa(Terminal::PkH(w.key(i, tap)))?;
+    fa(Terminal::Check(arc(k)))
+}
+/// cheap branch next to an expensive one: or_i where the context admits it, or_d otherwise
+fn beside<Ctx: ScriptContext>(cheap: Ms<Ctx>, big: Ms<Ctx>, legacy: bool) -> Option<Ms<Ctx>> {
+    if legacy {
+        fa(Terminal::OrD(arc(cheap), arc(big)))
+    } else {
+        fa(Terminal::OrI(arc(big), arc(cheap)))
+    }
+}
+
+fn directed_limits(w: &World, sg: &Sigs, seed: u64, cap: usize, out: &mut String) {
+    let mut id = 2_000_000u64;
+    let mut rng = Rng(seed ^ 0xD1CE);
+    let mut note = |id: u64, what: &str, out: &mut String| {
+        writeln!(out, "NOTE directed case={} {} not-constructible", id, what).unwrap();
+    };
+    // ---------------- Tap: 1000 stack elements
+    let tap_cases: Vec<(&str, Option<Ms<Tap>>)> = vec![
+        ("tap-two-wide-multi_a-1004-elements", (|| {
+            let a = fa(Terminal::MultiA(Threshold::new(1, cyc(w, &[1, 2], 999, true)).ok()?))?;
+            let b = fa(Terminal::MultiA(Threshold::new(1, cyc(w, &[3, 4], 5, true)).ok()?))?;
+            beside(pk(w, 0, true)?, and_tree(vec![a, b])?, false)
+        })()),
+        ("tap-1001-hashes", (|| {
+            let hs: Option<Vec<Ms<Tap>>> = (0..1001).map(|i| fa(Terminal::Sha256(w.sha256_img(i % 2)))).collect();
+            beside(pk(w, 0, true)?, and_tree(hs?)?, false)
+        })()),
+        ("tap-600-plus-500-keys", (|| {
+            let a = fa(Terminal::MultiA(Threshold::new(2, cyc(w, &[1, 2], 600, true)).ok()?))?;
+            let b = fa(Terminal::MultiA(Threshold::new(1, cyc(w, &[3], 500, true)).ok()?))?;
+            beside(pk(w, 0, true)?, and_tree(vec![a, b, pk(w, 4, true)?])?, false)
+        })()),
+        ("tap-control-980-keys", (|| {
+            let a = fa(Terminal::MultiA(Threshold::new(1, cyc(w, &[1, 2], 980, true)).ok()?))?;
+            beside(pk(w, 0, true)?, a, false)
+        })()),
+        ("tap-control-900-hashes", (|| {
+            let hs: Option<Vec<Ms<Tap>>> = (0..900).map(|i| fa(Terminal::Sha256(w.sha256_img(i % 2)))).collect();
+            beside(pk(w, 0, true)?, and_tree(hs?)?, false)
+        })()),
+    ];
+    for (what, m) in tap_cases {
+        id += 1;
+        match m {
+            Some(m) => {
+                emit_ms_case(w, sg, id, "ms-tap", &m, &mut rng, cap, out);
+                // the same script as a tap leaf, alone and next to a small leaf
+                for with_small in [false, true] {
+                    id += 1;
+                    let mut a = Atoms::default();
+                    collect_atoms(w, &m, &mut a);
+                    let mut lv = vec![leaf_rec(w, &m)];
+                    let mut leaves = vec![m.clone()];
+                    if with_small {
+                        if let Some(sm) = pk::<Tap>(w, 1, true) {
+                            collect_atoms(w, &sm, &mut a);
+                            lv.push(leaf_rec(w, &sm));
+                            leaves.push(sm);
+                        }
+                    }
+                    push_u(&mut a.keys, 5);
+                    match tap_tree(leaves, 0).and_then(|t| Descriptor::new_tr(w.key(5, true), Some(t)).ok()) {
+                        Some(d) => emit_desc_case(w, sg, id, "tr", &d, &lv, None, Some(5), &a, &mut rng, cap, out),
+                        None => note(id, what, out),
+                    }
+                }
+            }
+            None => {
+                note(id, what, out);
+                id += 2;
+            }
+        }
+    }
+    // ---------------- Segwitv0: 100 witness items, 201 ops
+    let seg_cases: Vec<(&str, Option<Ms<Segwitv0>>)> = vec![
+        ("segv0-105-witness-items", (|| {
+            let ms: Option<Vec<Ms<Segwitv0>>> =
+                (0..5).map(|_| fa(Terminal::Multi(Threshold::new(20, cyc(w, &[1, 2], 20, false)).ok()?))).collect();
+            beside(pk(w, 0, false)?, and_tree(ms?)?, false)
+        })()),
+        ("segv0-208-ops", (|| {
+            let mut xs: Vec<Ms<Segwitv0>> = Vec::new();
+            for _ in 0..4 {
+                xs.push(fa(Terminal::Multi(Threshold::new(1, cyc(w, &[1, 2], 20, false)).ok()?))?);
+            }
+            for _ in 0..30 {
+                xs.push(pkh(w, 3, false)?);
+            }
+            beside(pk(w, 0, false)?, and_tree(xs)?, false)
+        })()),
+        ("segv0-control-3-wide-multis", (|| {
+            let ms: Option<Vec<Ms<Segwitv0>>> =
+                (0..3).map(|_| fa(Terminal::Multi(Threshold::new(1, cyc(w, &[1, 2], 20, false)).ok()?))).collect();
+            beside(pk(w, 0, false)?, and_tree(ms?)?, false)
+        })()),
+        ("segv0-control-63-items", (|| {
+            let ms: Option<Vec<Ms<Segwitv0>>> =
+                (0..3).map(|_| fa(Terminal::Multi(Threshold::new(20, cyc(w, &[1, 2], 20, false)).ok()?))).collect();
+            beside(pk(w, 0, false)?, and_tree(ms?)?, false)
+        })()),
+    ];
+    for (what, m) in seg_cases {
+        id += 1;
+        match m {
+            Some(m) => {
+                emit_ms_case(w, sg, id, "ms-segv0", &m, &mut rng, cap, out);
+                id += 1;
+                let mut a = Atoms::default();
+                collect_atoms(w, &m, &mut a);
+                let lv = vec![leaf_rec(w, &m)];
+                match Descriptor::new_wsh(m) {
+                    Ok(d) => emit_desc_case(w, sg, id, "wsh", &d, &lv, None, None, &a, &mut rng, cap, out),
+                    Err(_) => note(id, what, out),
+                }
+            }
+            None => {
+                note(id, what, out);
+                id += 1;
+            }
+        }
+    }
+    // ---------------- Legacy: 1650-byte scriptSig
+    let leg_cases: Vec<(&str, Option<Ms<Legacy>>)> = vec![
+        ("legacy-scriptsig-1728-bytes", (|| {
+            let xs: Option<Vec<Ms<Legacy>>> = (0..16).map(|i| pkh(w, 1 + i % 2, false)).collect();
+            beside(pk(w, 0, false)?, and_tree(xs?)?, true)
+        })()),
+        ("legacy-control-10-pkh", (|| {
+            let xs: Option<Vec<Ms<Legacy>>> = (0..10).map(|i| pkh(w, 1 + i % 2, false)).collect();
+            beside(pk(w, 0, false)?, and_tree(xs?)?, true)
+        })()),
+    ];
+    for (what, m) in leg_cases {
+        id += 1;
+        match m {
+            Some(m) => {
+                emit_ms_case(w, sg, id, "ms-legacy", &m, &mut rng, cap, out);
+                id += 1;
+                let mut a = Atoms::default();
+                collect_atoms(w, &m, &mut a);
+                let lv = vec![leaf_rec(w, &m)];
+                match Descriptor::new_sh(m) {
+                    Ok(d) => emit_desc_case(w, sg, id, "sh", &d, &lv, None, None, &a, &mut rng, cap, out),
+                    Err(_) => note(id, what, out),
+                }
+            }
+            None => {
+                note(id, what, out);
+                id += 1;
+            }
+        }
+    }
+    // ---------------- Bare: 201 ops
+    let bare_cases: Vec<(&str, Option<Ms<BareCtx>>)> = vec![
+        ("bare-207-ops", (|| {
+            let xs: Option<Vec<Ms<BareCtx>>> = (0..51).map(|i| pkh(w, 1 + i % 2, false)).collect();
+            beside(pk(w, 0, false)?, and_tree(xs?)?, true)
+        })()),
+        ("bare-control-40-pkh", (|| {
+            let xs: Option<Vec<Ms<BareCtx>>> = (0..40).map(|i| pkh(w, 1 + i % 2, false)).collect();
+            beside(pk(w, 0, false)?, and_tree(xs?)?, true)
+        })()),
+    ];
+    for (what, m) in bare_cases {
+        id += 1;
+        match m {
+            Some(m) => emit_ms_case(w, sg, id, "ms-bare", &m, &mut rng, cap, out),
+            None => note(id, what, out),
+        }
+    }
 }
